@@ -67,7 +67,7 @@ func needsChild(spec *RunSpec) bool {
 			return true
 		}
 		// decompression bombs allocate gigabytes: keep them (and the memory watchdog they trip) out of the worker
-		if f.Src.Elf != nil && f.Src.Elf.InflateMiB >= 64 {
+		if f.Src.Elf != nil && (f.Src.Elf.InflateMiB >= 64 || f.Src.Elf.Repeat > 1) {
 			return true
 		}
 		for _, z := range f.Src.Zip {
